@@ -148,7 +148,7 @@ Tick == /\ now < MaxT /\ now' = now + 1
         /\ UNCHANGED <<msz, est, at, acc, cclosed, cbef, csd, precanc, szdrop, isSd, ctxDone, flags, sdpc, wpc, wel, tf, woken, ndel, bad>>
 
 WorkerStep(w) == WIdle(w) \/ WWake(w) \/ WTimer(w) \/ TimerFire(w) \/ WSelect(w) \/ WSelect2(w) \/ WDeliver(w)
-Next == \/ \E e \in Elems : (\E t \in now..MaxT : Add(e, t)) \/ AddPush(e) \/ Cancel(e)
+Next == \/ \E e \in Elems : (\E t \in 0..MaxT : Add(e, t)) \/ AddPush(e) \/ Cancel(e)
         \/ \E w \in Workers : WorkerStep(w)
         \/ \E fl \in SUBSET {"cancel", "ignore"} : SdFlag(fl)
         \/ SdCtx \/ SdHeap \/ SdWait \/ Tick
